@@ -1,10 +1,13 @@
 #!/bin/sh
-# offline setup: syntax/semantic check of every specification module (nothing is compiled or fetched)
+# offline setup: syntax/semantic check of every specification module, in parallel (nothing is compiled or fetched)
 cd "$(dirname "$0")/../spec" || exit 1
-fail=0
-for f in *.tla; do
-  if ! tla-sany "$f" > /tmp/sany_$$.log 2>&1; then echo "SANY FAILED: $f"; tail -20 /tmp/sany_$$.log; fail=1; fi
-done
-rm -f /tmp/sany_$$.log
 mkdir -p ../evidence ../replays
-exit $fail
+LOG=$(mktemp -d /var/tmp/sany_XXXXXX)
+ls *.tla | xargs -P 12 -I{} sh -c 'tla-sany "{}" > "'$LOG'/{}.log" 2>&1 || echo "{}" >> "'$LOG'/FAILED"'
+if [ -s "$LOG/FAILED" ]; then
+  echo "SANY FAILED for:"; cat "$LOG/FAILED"
+  for f in $(cat "$LOG/FAILED"); do tail -15 "$LOG/$f.log"; done
+  rm -rf "$LOG"; exit 1
+fi
+rm -rf "$LOG"
+echo "setup ok: $(ls *.tla | wc -l) modules parsed"
